@@ -185,8 +185,18 @@ def parse_fails(log, name):
     return [int(x) for x in re.split(r"[;\s]+", body) if x]
 
 
+def parse_verdicts(log):
+    m = re.search(r"verdicts\s*=\s*(\[.*?\])\s*:\s*list \(list bool\)", log, flags=re.S)
+    if not m:
+        return None
+    body = m.group(1)
+    rows = re.findall(r"\[([^\[\]]*)\]", body[1:-1])
+    return [[x.strip() == "true" for x in r.split(";") if x.strip()] for r in rows]
+
+
 def eval_shard(args):
-    out, sh = args
+    """Returns (shard, corr failures, holds failures, log tail, seconds); failures are lists of (index, predicate)."""
+    out, sh, holds_sel = args
     t0 = time.time()
     try:
         rc, log = coqc_file(os.path.join(out, sh["file"]), timeout=3000)
@@ -194,7 +204,26 @@ def eval_shard(args):
         return sh, None, None, "coqc timed out", time.time() - t0
     if rc != 0:
         return sh, None, None, log[-3000:], time.time() - t0
-    return sh, parse_fails(log, "corr_fails"), parse_fails(log, "holds_fails"), log[-500:], time.time() - t0
+    if sh.get("preds"):
+        rows = parse_verdicts(log)
+        if rows is None or len(rows) != sh["cases"]:
+            return sh, None, None, "cannot parse verdicts: " + log[-1500:], time.time() - t0
+        cf, hf = [], []
+        for i, row in enumerate(rows):
+            if len(row) != len(sh["preds"]):
+                return sh, None, None, "verdict row of wrong length: " + log[-500:], time.time() - t0
+            for name, ok in zip(sh["preds"], row):
+                if ok:
+                    continue
+                if name.startswith("corr"):
+                    cf.append((i, name))
+                elif holds_sel is None or name in holds_sel:
+                    hf.append((i, name))
+        return sh, cf, hf, log[-300:], time.time() - t0
+    cf, hf = parse_fails(log, "corr_fails"), parse_fails(log, "holds_fails")
+    if cf is None or hf is None:
+        return sh, None, None, log[-1500:], time.time() - t0
+    return sh, [(i, "corr") for i in cf], [(i, "holds") for i in hf], log[-500:], time.time() - t0
 
 
 # ---------------------------------------------------------------- verdicts
@@ -322,23 +351,23 @@ def decide(pid, P, tier, seed, scratch, t0, replay_sel):
         for sh in st.get("shards", []):
             if P.get("streams") and sh["stream"] not in P["streams"]:
                 continue
-            shards.append((out, sh))
+            shards.append((out, sh, P.get("holds_preds")))
 
     # -- 3. model evaluation (only when the cone compiled)
     corr_fail, holds_fail, eval_errors, ncases = [], [], [], 0
     if ok:
         with concurrent.futures.ThreadPoolExecutor(max_workers=16) as ex:
             for sh, cf, hf, log, dt in ex.map(eval_shard, shards):
-                out = [o for o, s in shards if s is sh][0]
+                out = [o for o, s, _ in shards if s is sh][0]
                 if cf is None or hf is None:
                     eval_errors.append("%s: %s" % (sh["file"], log))
                     continue
                 ncases += sh["cases"]
                 raws = json.load(open(os.path.join(out, sh["json"])))
-                for i in cf:
-                    corr_fail.append({"stream": sh["stream"], "shard": sh["file"], "index": i, "case": raws[i]})
-                for i in hf:
-                    holds_fail.append({"stream": sh["stream"], "shard": sh["file"], "index": i, "case": raws[i]})
+                for i, pred in cf:
+                    corr_fail.append({"stream": sh["stream"], "shard": sh["file"], "index": i, "predicate": pred, "case": raws[i]})
+                for i, pred in hf:
+                    holds_fail.append({"stream": sh["stream"], "shard": sh["file"], "index": i, "predicate": pred, "case": raws[i]})
         if eval_errors:
             raise HarnessError("Coq evaluation of cases failed:\n" + "\n".join(eval_errors)[:6000])
     impl_fail = []
@@ -346,6 +375,8 @@ def decide(pid, P, tier, seed, scratch, t0, replay_sel):
         for f in st.get("impl_failures") or []:
             if P.get("streams") and f.get("stream") not in P["streams"] and f.get("stream") not in P.get("impl_streams", []):
                 continue
+            if re.match(r"^C\d\d\d?:", f.get("what", "")) and not f["what"].startswith(pid + ":"):
+                continue  # a shared driver tags its oracle failures with the property they belong to
             impl_fail.append(f)
 
     # -- 4. verdict
